@@ -179,34 +179,87 @@ def f1(repo: Repo) -> RuleResult:
 
 @rule("F2", "definitions are emitted children first, in declaration order, for the bound proto only")
 def f2(repo: Repo) -> RuleResult:
+    from .normal import V, show
+    from .pyflow import PyFlow, single_atom
+
     res = RuleResult("F2", floor=2)
     m = get_model(repo)
     fl = m.func("_ast.py", "Scope.filter")
-    loops = [n for n in ast.walk(fl.node) if isinstance(n, ast.For)]
-    res.inst(function="Scope.filter", loops=len(loops))
-    if len(loops) != 1 or src_of(loops[0].iter) != "self.members.items()":
-        res.unsure("F2: Scope.filter is not a single loop over self.members.items()")
+    flow = PyFlow(funcs={}, havoc_on=(), pure=("items", "cast"))
+    try:
+        top = flow.run(fl.node)
+    except Inconclusive as e:
+        top = []
+        res.unsure(f"F2: Scope.filter: {e}")
+    loops = [e for p_ in top for e in p_.effects if e.kind == "loop"]
+    res.inst(function="Scope.filter", loops=len({id(e.node) for e in loops}))
+    if len({id(e.node) for e in loops}) != 1 or "self.members" not in show(loops[0].args[0]):
+        res.unsure("F2: Scope.filter is not a single loop over self.members")
     else:
-        body = loops[0].body
-        idx_child = next((i for i, s in enumerate(body) if isinstance(s, ast.If) and src_of(s.test) == "recursive"), None)
-        idx_self = next((i for i, s in enumerate(body) if isinstance(s, ast.If) and src_of(s.test) == "isinstance(member, t)"), None)
-        if idx_child is None or idx_self is None:
-            res.unsure("F2: Scope.filter: recursive / own-member steps not recognised")
-        else:
-            if idx_child > idx_self:
-                res.bad(Finding("F2", fl.rel, fl.node.lineno, "Scope.filter", "", "a scope is emitted before the definitions nested in it: C structs / Python classes refer to nested types that are declared later", witness="message Outer { message Inner {} Inner i = 1 }", tag="filter:order"))
-            ch = src_of(body[idx_child])
-            if "isinstance(member, Scope)" not in ch or "items.extend(scope.filter(t, recursive=recursive))" not in ch:
-                res.bad(Finding("F2", fl.rel, fl.node.lineno, "Scope.filter", "", "nested scopes are not descended with the same type filter", tag="filter:descend"))
-            if "items.append((name, member))" not in src_of(body[idx_self]):
-                res.bad(Finding("F2", fl.rel, fl.node.lineno, "Scope.filter", "", "matching members are not appended in iteration (declaration) order", tag="filter:append"))
+        lp = loops[0]
+        ret_list = [p_.ret for p_ in top if p_.done == "return" and p_.ret is not None]
+        seen_both = False
+        for sp in lp.sub or []:
+            # the case of interest: recursion requested, the member is a scope and matches the type
+            lits = {(k[0], show(k[1]) if len(k) > 1 and hasattr(k[1], "terms") else "", tuple(k[2]) if k[0] == "isinstance" else None): t for k, t in sp.guards}
+            rec = lits.get(("truthy", "recursive", None))
+            grow = [e for e in sp.effects if e.kind == "call" and e.name in ("extend", "append", "insert")]
+            desc = [e for e in grow if e.name == "extend" and e.args and single_atom(e.args[0]) is not None and single_atom(e.args[0])[0] == "mcall" and single_atom(e.args[0])[1] == "filter"]
+            own = [e for e in grow if e.name in ("append", "insert") and e.args and single_atom(e.args[-1]) is not None and single_atom(e.args[-1])[0] == "tuple" and len(single_atom(e.args[-1])[1]) == 2]
+            if rec is False and desc:
+                res.bad(Finding("F2", fl.rel, fl.node.lineno, "Scope.filter", "", "nested scopes are descended although recursive is false", tag="filter:descend"))
+            if desc and own:
+                seen_both = True
+                if grow.index(desc[0]) > grow.index(own[0]):
+                    res.bad(Finding("F2", fl.rel, fl.node.lineno, "Scope.filter", "", "a scope is emitted before the definitions nested in it: C structs / Python classes refer to nested types that are declared later", witness="message Outer { message Inner {} Inner i = 1 }", tag="filter:order"))
+                a_ = single_atom(desc[0].args[0])
+                args_ = [show(x) for x in a_[2][1:]]
+                if not args_ or args_[0] != "t" or not any(x in ("recursive=recursive", "recursive=1", "recursive") for x in args_[1:]):
+                    res.bad(Finding("F2", fl.rel, fl.node.lineno, "Scope.filter", str(args_), "nested scopes are not descended with the same type filter", tag="filter:descend"))
+            for e in own:
+                if e.name == "insert":
+                    res.bad(Finding("F2", fl.rel, fl.node.lineno, "Scope.filter", repr(e), "matching members are not appended in iteration (declaration) order", tag="filter:append"))
+        if not seen_both:
+            if any(e.kind == "call" and e.name in ("append", "insert") for sp in lp.sub or [] for e in sp.effects):
+                res.bad(Finding("F2", fl.rel, fl.node.lineno, "Scope.filter", "", "nested scopes are not descended with the same type filter (no path both descends into a scope and emits it)", tag="filter:descend"))
+            else:
+                res.unsure("F2: Scope.filter: recursive / own-member steps not recognised")
+    # dispatcher: walk of the bound proto's definitions, dispatch of each, order kept
     dp = m.func("renderer/block.py", "BlockBoundDefinitionDispatcher.blocks")
-    t = src_of(dp.node)
     res.inst(function=dp.qual)
-    if "self.bound.filter(BoundDefinition, recursive=True, bound=self.bound)" not in t:
-        res.bad(Finding("F2", dp.rel, dp.node.lineno, dp.qual, "", "the dispatcher does not walk the bound proto's definitions recursively, restricted to that proto", witness="nested messages are not generated / imported definitions are generated twice", tag="dispatcher:filter"))
-    if "block = self.dispatch(d)" not in t or "b.append(block)" not in t:
-        res.bad(Finding("F2", dp.rel, dp.node.lineno, dp.qual, "", "dispatched blocks are not collected in walk order", tag="dispatcher:collect"))
+    try:
+        dflow = PyFlow(funcs={}, havoc_on=(), pure=("filter",))
+        paths = [p_ for p_ in dflow.run(dp.node) if p_.done == "return"]
+        walk_ok = disp_ok = False
+        reorder = None
+        for p_ in paths:
+            for e in p_.effects:
+                if e.kind != "loop":
+                    continue
+                it = single_atom(e.args[0]) if e.args else None
+                if it is not None and it[0] == "mcall" and it[1] == "filter":
+                    args_ = [show(x) for x in it[2]]
+                    if args_[:2] == ["self.bound", "BoundDefinition"] and "recursive=1" in args_ and "bound=self.bound" in args_:
+                        walk_ok = True
+                    for sp in e.sub or []:
+                        for c_ in sp.effects:
+                            if c_.kind == "call" and c_.name == "dispatch" and c_.args and show(c_.args[0]) == "d":
+                                disp_ok = True
+                            if c_.kind == "call" and c_.name == "insert":
+                                reorder = repr(c_)
+            txt = show(p_.ret) if p_.ret is not None else ""
+            for w in ("reversed(", "sorted(", "[::-1]"):
+                if w in txt or any(w in repr(e) for e in p_.effects):
+                    reorder = w
+        if not walk_ok:
+            if any(e.kind == "loop" for p_ in paths for e in p_.effects):
+                res.bad(Finding("F2", dp.rel, dp.node.lineno, dp.qual, "", "the dispatcher does not walk the bound proto's definitions recursively, restricted to that proto", witness="nested messages are not generated / imported definitions are generated twice", tag="dispatcher:filter"))
+            else:
+                res.unsure(f"F2: {dp.qual}: no iteration found")
+        elif not disp_ok or reorder is not None:
+            res.bad(Finding("F2", dp.rel, dp.node.lineno, dp.qual, reorder or "", "dispatched blocks are not collected in walk order", tag="dispatcher:collect"))
+    except Inconclusive as e:
+        res.unsure(f"F2: {dp.qual}: {e}")
     return res
 
 
